@@ -132,7 +132,7 @@ pub fn gen_schedules(rng: &mut Rng, odd: bool) -> SchedulesDb {
 }
 
 /// names a user may type: accents, quotes, backslashes, control characters, characters outside the basic multilingual plane
-const ODD_NAMES: [&str; 8] = ["Vivienda 🏠 A", "𠀀𠀁 ático", "comillas \"dobles\" y \\ barra", "tab\ty\nsalto", "ñandú €uro", "\u{7f}\u{1}ctl", "𝔘-value 𝟚", "a\u{301}\u{200d}z"];
+const ODD_NAMES: [&str; 9] = ["", "Vivienda 🏠 A", "𠀀𠀁 ático", "comillas \"dobles\" y \\ barra", "tab\ty\nsalto", "ñandú €uro", "\u{7f}\u{1}ctl", "𝔘-value 𝟚", "a\u{301}\u{200d}z"];
 
 pub fn gen_model(rng: &mut Rng, o: &GenOpts) -> Model {
     let mut m = Model::default();
